@@ -86,7 +86,7 @@ def _obj(a):
             flat[i] = to_P(x)
         return out
     out = np.empty((), dtype=object)
-    out[()] = to_P(a)
+    out[()] = a.p if isinstance(a, SymFloat) else to_P(a)
     return out
 
 
